@@ -36,6 +36,7 @@ import (
 	"github.com/AliceO2Group/Control/common/logger/infologger"
 	"github.com/AliceO2Group/Control/common/monitoring"
 	pb "github.com/AliceO2Group/Control/common/protos"
+	"github.com/AliceO2Group/Control/common/verifhook"
 	"github.com/segmentio/kafka-go"
 	"github.com/sirupsen/logrus"
 	"github.com/spf13/viper"
@@ -134,12 +135,16 @@ func (w *KafkaWriter) WriteEvent(e interface{}) {
 
 func (w *KafkaWriter) writingLoop() {
 	for {
+		verifhook.Point("evw.w.select")
 		select {
 		case <-w.batchingLoopDoneCh:
+			verifhook.Point("evw.w.exit")
 			w.runningWorkers.Done()
 			return
 		default:
+			verifhook.Point("evw.w.prepop")
 			messagesToSend := w.messageBuffer.PopMultiple(100)
+			verifhook.Point("evw.w.popped", "n", len(messagesToSend))
 			if len(messagesToSend) == 0 {
 				continue
 			}
@@ -157,10 +162,15 @@ func (w *KafkaWriter) writingLoop() {
 
 func (w *KafkaWriter) batchingLoop() {
 	for message := range w.toBatchMessagesChan {
+		verifhook.Point("evw.b.recv")
 		w.messageBuffer.Push(message)
+		verifhook.Point("evw.b.pushed")
 	}
+	verifhook.Point("evw.b.closed")
 	w.batchingLoopDoneCh <- struct{}{}
+	verifhook.Point("evw.b.signalled")
 	w.messageBuffer.ReleaseGoroutines()
+	verifhook.Point("evw.b.released")
 	w.runningWorkers.Done()
 }
 
